@@ -300,10 +300,13 @@ func c07UpdLine(now int64, h *xibctm.Header, signers []int) string {
 // ---- ICS-23 proof fixture: a committed IAVL multistore with one packet commitment ---------------------
 
 type c07Proof struct {
-	root   []byte
-	proof  []byte
-	value  []byte
-	tamper []byte
+	root      []byte
+	proof     []byte
+	value     []byte
+	tamper    []byte
+	ackProof  []byte
+	ackValue  []byte
+	ackTamper []byte
 }
 
 func c07MakeProof(t *testing.T, a *app.Teleport) *c07Proof {
@@ -322,6 +325,11 @@ func c07MakeProof(t *testing.T, a *app.Teleport) *c07Proof {
 		kv.Set(host.PacketCommitmentKey(c07SrcName, c07DstName, s), tmhash.Sum([]byte(fmt.Sprintf("other commitment %d", s))))
 	}
 	kv.Set(host.PacketCommitmentKey(c07SrcName, c07DstName, c07Seq), value)
+	ackValue := tmhash.Sum([]byte("c07 packet acknowledgement"))
+	for s := uint64(1); s <= 12; s++ {
+		kv.Set(host.PacketAcknowledgementKey(c07SrcName, c07DstName, s), tmhash.Sum([]byte(fmt.Sprintf("other acknowledgement %d", s))))
+	}
+	kv.Set(host.PacketAcknowledgementKey(c07SrcName, c07DstName, c07Seq), ackValue)
 	ms.GetKVStore(k2).Set([]byte("x"), []byte("y"))
 	cid := ms.Commit()
 	res := ms.Query(abci.RequestQuery{Path: "/" + host.StoreKey + "/key", Data: host.PacketCommitmentKey(c07SrcName, c07DstName, c07Seq), Height: cid.Version, Prove: true})
@@ -358,6 +366,34 @@ func c07MakeProof(t *testing.T, a *app.Teleport) *c07Proof {
 		tb[idx] ^= 0x01
 	}
 	p.tamper = tb
+	// the acknowledgement of the same packet, proved against the same root
+	res = ms.Query(abci.RequestQuery{Path: "/" + host.StoreKey + "/key", Data: host.PacketAcknowledgementKey(c07SrcName, c07DstName, c07Seq), Height: cid.Version, Prove: true})
+	if res.ProofOps == nil {
+		t.Fatalf("no ack proof: %v", res.Log)
+	}
+	amp, err := commitmenttypes.ConvertProofs(res.ProofOps)
+	if err != nil {
+		t.Fatal(err)
+	}
+	abz, err := a.AppCodec().Marshal(&amp)
+	if err != nil {
+		t.Fatal(err)
+	}
+	apath, _ := commitmenttypes.ApplyPrefix(&commitmenttypes.MerklePrefix{KeyPrefix: []byte(host.StoreKey)}, commitmenttypes.NewMerklePath(host.PacketAcknowledgementPath(c07SrcName, c07DstName, c07Seq)))
+	if err := amp.VerifyMembership(commitmenttypes.GetSDKSpecs(), p.root, apath, ackValue); err != nil {
+		t.Fatalf("fixture ack proof does not verify: %v", err)
+	}
+	p.ackProof, p.ackValue = abz, ackValue
+	atb := append([]byte{}, abz...)
+	for idx := len(atb) / 2; idx < len(atb); idx++ {
+		atb[idx] ^= 0x01
+		var m2 commitmenttypes.MerkleProof
+		if a.AppCodec().Unmarshal(atb, &m2) == nil && m2.VerifyMembership(commitmenttypes.GetSDKSpecs(), p.root, apath, ackValue) != nil {
+			break
+		}
+		atb[idx] ^= 0x01
+	}
+	p.ackTamper = atb
 	return p
 }
 
@@ -547,7 +583,7 @@ func (w *c07World) apply(r *Rec, op string) string {
 		return w.upgrade(r, f)
 	case "upd":
 		return w.update(r, op, f)
-	case "vfy":
+	case "vfy", "vfa":
 		return w.verify(r, f)
 	}
 	w.t.Fatalf("bad op %q", op)
@@ -860,39 +896,53 @@ func (w *c07World) oracleUpdate(r *Rec, now int64, hdr *xibctm.Header, infos []c
 	}
 }
 
-func (w *c07World) proofOf(kind int) (proof []byte, seq uint64, value []byte) {
+// kinds: 0 nil, 1 genuine, 2 wrong value, 3 wrong sequence, 4 undecodable, 5 empty, 6 tampered, 7 the genuine proof of the other path
+func (w *c07World) proofOf(kind int, ack bool) (proof []byte, seq uint64, value []byte) {
 	seq, value = c07Seq, w.pf.value
+	gen, other, tamper := w.pf.proof, w.pf.ackProof, w.pf.tamper
+	if ack {
+		value = w.pf.ackValue
+		gen, other, tamper = w.pf.ackProof, w.pf.proof, w.pf.ackTamper
+	}
 	switch kind {
 	case 0:
 		return nil, seq, value
 	case 1:
-		return w.pf.proof, seq, value
+		return gen, seq, value
 	case 2:
-		return w.pf.proof, seq, tmhash.Sum([]byte("another value"))
+		return gen, seq, tmhash.Sum([]byte("another value"))
 	case 3:
-		return w.pf.proof, seq + 1, value
+		return gen, seq + 1, value
 	case 4:
 		return []byte{0xff, 0xff, 0xff, 0x01, 0x02}, seq, value
 	case 5:
 		return []byte{}, seq, value
+	case 7:
+		return other, seq, value
 	default:
-		return w.pf.tamper, seq, value
+		return tamper, seq, value
 	}
 }
 
+// both Verify* entry points of the client: op "vfy" = VerifyPacketCommitment, "vfa" = VerifyPacketAcknowledgement
 func (w *c07World) verify(r *Rec, f []string) string {
 	if !w.exists {
 		return "bad-op"
 	}
+	ack := f[0] == "vfa"
+	pn := "commit"
+	if ack {
+		pn = "ack"
+	}
 	now := c07ParseI(f[1])
 	h := clienttypes.NewHeight(c07ParseU(f[2]), c07ParseU(f[3]))
 	kind, _ := strconv.Atoi(f[9])
-	proof, seq, value := w.proofOf(kind)
+	proof, seq, value := w.proofOf(kind, ack)
 	// the abstract fields must describe the payload
 	var mp commitmenttypes.MerkleProof
 	decodes := proof != nil && w.app.AppCodec().Unmarshal(proof, &mp) == nil
 	if f[4] != c07B(proof != nil) || f[5] != c07B(decodes) || f[6] != hx(w.pf.root) || f[7] != c07B(kind == 1) || f[8] != "|" {
-		w.t.Fatalf("vfy op does not describe its payload: %v", f)
+		w.t.Fatalf("%s op does not describe its payload: %v", f[0], f)
 	}
 	snap := w.snap(w.ctx)
 	ctx := w.ctx.WithBlockTime(time.Unix(0, now).UTC())
@@ -901,12 +951,51 @@ func (w *c07World) verify(r *Rec, f []string) string {
 		w.t.Fatal("client state missing")
 	}
 	store := w.app.XIBCKeeper.ClientKeeper.ClientStore(ctx, c07Client)
+	// classification of the case by the harness's own reading of the store (for the distribution, not for the verdict)
+	c, ok := snap.cons[h]
+	pt, okp := snap.ptime[h]
+	valid := new(big.Int).Add(new(big.Int).SetUint64(pt), new(big.Int).SetUint64(w.cs.TimeDelay))
+	elapsed := okp && valid.BitLen() <= 64 && valid.Cmp(big.NewInt(now)) <= 0
+	cat := ""
+	switch {
+	case ok && snap.latest.LT(h):
+		cat = "stored-above-latest"
+	case snap.latest.LT(h):
+		cat = "above-latest"
+	case !ok:
+		cat = "not-stored"
+	case !elapsed:
+		cat = "delay-not-elapsed"
+	case kind != 1 || !bytes.Equal(c.root, w.pf.root):
+		cat = "no-membership"
+	default:
+		cat = "honourable"
+	}
+	if ok && okp && w.cs.TimeDelay > 0 && valid.BitLen() <= 64 {
+		switch valid.Cmp(big.NewInt(now)) {
+		case 0:
+			r.Count(pn + ".delay.exactly-elapsed")
+		case 1:
+			if new(big.Int).Sub(valid, big.NewInt(now)).Cmp(big.NewInt(1)) == 0 {
+				r.Count(pn + ".delay.one-ns-before")
+			}
+		case -1:
+			if new(big.Int).Sub(big.NewInt(now), valid).Cmp(big.NewInt(1)) == 0 {
+				r.Count(pn + ".delay.one-ns-after")
+			}
+		}
+	}
 	var err error
 	pan, _ := safely(func() {
-		err = csI.VerifyPacketCommitment(ctx, store, w.app.AppCodec(), h, proof, c07SrcName, c07DstName, seq, value)
+		if ack {
+			err = csI.VerifyPacketAcknowledgement(ctx, store, w.app.AppCodec(), h, proof, c07SrcName, c07DstName, seq, value)
+		} else {
+			err = csI.VerifyPacketCommitment(ctx, store, w.app.AppCodec(), h, proof, c07SrcName, c07DstName, seq, value)
+		}
 	})
 	if pan || err != nil {
 		r.Count("vfy.rejected")
+		r.Count(pn + "." + cat + ".rejected")
 		if err != nil {
 			m := err.Error()
 			switch {
@@ -925,21 +1014,26 @@ func (w *c07World) verify(r *Rec, f []string) string {
 		return "rej"
 	}
 	r.Count("vfy.accepted")
+	r.Count(pn + ".accepted")
+	if w.cs.TimeDelay > 0 {
+		r.Count(pn + ".accepted.nonzero-delay")
+	}
+	sfx, fn := "", "VerifyPacketCommitment"
+	if ack {
+		sfx, fn = ":ack-path", "VerifyPacketAcknowledgement"
+	}
 	bad := func(which, obs, req string) {
-		w.find(r, "C07:honoured-proof:"+which, "VerifyPacketCommitment honoured a proof although: "+which, obs, req)
+		w.find(r, "C07:honoured-proof:"+which+sfx, fn+" honoured a proof although: "+which, obs, req)
 	}
 	if snap.latest.LT(h) {
 		bad("height-above-latest", c07H(h), "<= "+c07H(snap.latest))
 	}
-	c, ok := snap.cons[h]
 	if !ok {
 		bad("no-consensus-state-at-proof-height", c07H(h), "stored height")
 	}
-	pt, okp := snap.ptime[h]
 	if !okp {
 		bad("no-processed-time", c07H(h), "processed time")
 	} else {
-		valid := new(big.Int).Add(new(big.Int).SetUint64(pt), new(big.Int).SetUint64(w.cs.TimeDelay))
 		if valid.BitLen() > 64 {
 			bad("delay-not-passed:delay-overflows-uint64", fmt.Sprintf("processed %d + delay %d > now %d", pt, w.cs.TimeDelay, now), "processed + delay <= now")
 		} else if valid.Cmp(big.NewInt(now)) > 0 {
@@ -1542,12 +1636,19 @@ func (g *c07Gen) createOp(h0 int64, now int64) string {
 		b.time, hx(b.app), hx(c07HashVals(b.next)), now)
 }
 
-func (g *c07Gen) vfyOp(now int64, h clienttypes.Height, kind int) string {
-	proof, _, _ := g.w.proofOf(kind)
+func (g *c07Gen) vfOp(ack bool, now int64, h clienttypes.Height, kind int) string {
+	proof, _, _ := g.w.proofOf(kind, ack)
 	var mp commitmenttypes.MerkleProof
 	decodes := proof != nil && g.w.app.AppCodec().Unmarshal(proof, &mp) == nil
-	return fmt.Sprintf("vfy %d %d %d %s %s %s %s | %d", now, h.RevisionNumber, h.RevisionHeight, c07B(proof != nil), c07B(decodes), hx(g.w.pf.root), c07B(kind == 1), kind)
+	op := "vfy"
+	if ack {
+		op = "vfa"
+	}
+	return fmt.Sprintf("%s %d %d %d %s %s %s %s | %d", op, now, h.RevisionNumber, h.RevisionHeight, c07B(proof != nil), c07B(decodes), hx(g.w.pf.root), c07B(kind == 1), kind)
 }
+
+func (g *c07Gen) vfyOp(now int64, h clienttypes.Height, kind int) string { return g.vfOp(false, now, h, kind) }
+func (g *c07Gen) vfaOp(now int64, h clienttypes.Height, kind int) string { return g.vfOp(true, now, h, kind) }
 
 func TestC07(t *testing.T) {
 	r := NewRec(t, "C07")
@@ -1556,7 +1657,7 @@ func TestC07(t *testing.T) {
 	run := func(op string) string {
 		out := w.apply(r, op)
 		r.Op(op, out)
-		if strings.HasPrefix(op, "upd") || strings.HasPrefix(op, "vfy") {
+		if strings.HasPrefix(op, "upd") || strings.HasPrefix(op, "vfy") || strings.HasPrefix(op, "vfa") {
 			f := strings.Fields(op)
 			for i, x := range f {
 				if x == "|" {
@@ -1593,6 +1694,7 @@ func TestC07(t *testing.T) {
 	c07DirectedExpiry(g, run)
 	c07DirectedConfigEdges(g, run)
 	c07DirectedMultiRev(g, run)
+	c07DirectedVerifyMatrix(g, run)
 	for i := 0; i < hist/4; i++ {
 		c07HistoryMultiRev(g, run)
 	}
@@ -1709,6 +1811,7 @@ func c07DirectedConfigEdges(g *c07Gen, run func(string) string) {
 	run("reset")
 	run(g.createOp(5, t0+1e9))
 	run(g.vfyOp(t0+2e9, clienttypes.NewHeight(1, 5), 1))
+	run(g.vfaOp(t0+2e9, clienttypes.NewHeight(1, 5), 1))
 	g.delay = math.MaxUint64 - uint64(t0+1e9) // processed + delay = MaxUint64: no overflow, never reached
 	run("reset")
 	run(g.createOp(5, t0+1e9))
@@ -1798,6 +1901,24 @@ func c07History(g *c07Gen, run func(string) string) {
 		if len(stored) == 0 || r.Stats["rej.status"] >= statusRej0+2 {
 			break
 		}
+		if g.rn(40) == 0 && len(stored) >= 2 {
+			// an upgrade (governance path) installs a lower latest height of the same revision: stored heights above it remain
+			low := int64(stored[len(stored)-2].RevisionHeight)
+			if stored[len(stored)-2].RevisionNumber == g.rev && low >= g.lo && low <= g.hi {
+				if g.rn(2) == 0 && low > g.lo {
+					low--
+				}
+				run(g.upgradeOp(low, g.now))
+				top := stored[len(stored)-1]
+				late := g.now + int64(g.delay) + 1
+				if late < 0 {
+					late = g.now
+				}
+				run(g.vfOp(g.rn(2) == 0, late, top, 1))
+				r.Count("rollback-upgrade")
+				continue
+			}
+		}
 		if g.rn(4) == 0 {
 			// proof verification at stored / unstored / too recent heights
 			var h clienttypes.Height
@@ -1827,7 +1948,10 @@ func c07History(g *c07Gen, run func(string) string) {
 				}
 			}
 			kind := []int{1, 1, 1, 1, 1, 1, 1, 0, 2, 3, 4, 5, 6}[g.rn(13)]
-			run(g.vfyOp(now, h, kind))
+			if g.rn(8) == 0 {
+				kind = 7
+			}
+			run(g.vfOp(g.rn(2) == 0, now, h, kind))
 			continue
 		}
 		// choose trusted height and target
@@ -2070,6 +2194,8 @@ func c07DirectedMultiRev(g *c07Gen, run func(string) string) {
 		g.simUpd(run, hb+4, clienttypes.NewHeight(2, uint64(hb+1)), t0+36e9, nil, 0)
 		run(g.vfyOp(t0+37e9, clienttypes.NewHeight(2, uint64(hb+4)), 1))
 		run(g.vfyOp(t0+37e9, clienttypes.NewHeight(1, 105), 1))
+		run(g.vfaOp(t0+37e9, clienttypes.NewHeight(2, uint64(hb+4)), 1))
+		run(g.vfaOp(t0+37e9, clienttypes.NewHeight(1, 105), 1))
 		g.r.Count("directed.multirev")
 	}
 }
@@ -2158,7 +2284,7 @@ func c07HistoryMultiRev(g *c07Gen, run func(string) string) {
 			if g.rn(4) == 0 {
 				h.RevisionHeight++
 			}
-			run(g.vfyOp(g.now+int64(g.delay), h, []int{1, 1, 1, 2, 0}[g.rn(5)]))
+			run(g.vfOp(g.rn(2) == 0, g.now+int64(g.delay)+int64(g.rn(3))-1, h, []int{1, 1, 1, 2, 0, 7}[g.rn(6)]))
 			continue
 		}
 		ti := len(hs) - 1
@@ -2205,4 +2331,92 @@ func c07HistoryMultiRev(g *c07Gen, run func(string) string) {
 		g.simUpd(run, tgt, trusted, tick(), sm, mut)
 	}
 	r.Count("multirev.history")
+}
+
+// ---- every Verify* entry point over the same matrix --------------------------------------------------------------
+// TimeDelay in {0, 1ns, 5s, 1h} x path in {commitment, acknowledgement} x proof height in {stored <= latest (created,
+// updated), not stored, latest+1, stored > latest (after an upgrade installed a lower latest height)} x block time in
+// {processed+delay-1, processed+delay, processed+delay+1} x proof in {genuine, wrong value, nil, proof of the other path}.
+func c07DirectedVerifyMatrix(g *c07Gen, run func(string) string) {
+	t0 := int64(1700000000) * int64(time.Second)
+	vals := c07Vals([]int{1, 2, 3}, []int64{1, 1, 1})
+	{
+		// the short form of the roll-back history: update to 1-8, an upgrade installs latest height 1-6, the consensus
+		// state at 1-8 is still stored; a proof at 1-8 must be refused on both paths, a proof at 1-6 is honoured
+		g.rev, g.chainID = 1, "cpchain-1"
+		g.tp, g.drift, g.delay = int64(24*time.Hour), int64(10*time.Second), uint64(5*time.Second)
+		g.num, g.den = 1, 3
+		g.now = t0
+		g.blocks = map[int64]*c07Blk{}
+		g.lo, g.hi = 4, 12
+		for h := int64(4); h <= 12; h++ {
+			g.blocks[h] = &c07Blk{h: h, time: t0 + (h-5)*1e9, vals: vals, next: vals, app: g.w.pf.root}
+		}
+		run("reset")
+		run(g.createOp(5, t0+10e9))
+		g.simUpd(run, 8, clienttypes.NewHeight(1, 5), t0+20e9, nil, 0)
+		run(g.upgradeOp(6, t0+30e9))
+		run(g.vfyOp(t0+100e9, clienttypes.NewHeight(1, 8), 1))
+		run(g.vfaOp(t0+100e9, clienttypes.NewHeight(1, 8), 1))
+		run(g.vfyOp(t0+100e9, clienttypes.NewHeight(1, 6), 1))
+		run(g.vfaOp(t0+100e9, clienttypes.NewHeight(1, 6), 1))
+		g.r.Count("directed.rollback")
+	}
+	for _, delay := range []uint64{0, 1, uint64(5 * time.Second), uint64(time.Hour)} {
+		g.rev, g.chainID = 1, "cpchain-1"
+		g.tp, g.drift, g.delay = int64(24*time.Hour), int64(10*time.Second), delay
+		g.num, g.den = 1, 3
+		g.now = t0
+		g.blocks = map[int64]*c07Blk{}
+		g.lo, g.hi = 4, 12
+		for h := int64(4); h <= 12; h++ {
+			g.blocks[h] = &c07Blk{h: h, time: t0 + (h-5)*1e9, vals: vals, next: vals, app: g.w.pf.root}
+		}
+		pCreate, pUpd := t0+10e9, t0+20e9 // processed times of 1-5 and 1-8
+		matrix := func(tag string, hs []clienttypes.Height, ptOf func(clienttypes.Height) int64) {
+			for _, h := range hs {
+				base := ptOf(h) + int64(delay)
+				for _, dt := range []int64{-1, 0, 1} {
+					for _, kind := range []int{1, 2, 0, 7} {
+						if kind != 1 && dt != 1 {
+							continue // wrong proofs once, after the delay (so that only the proof is wrong)
+						}
+						run(g.vfyOp(base+dt, h, kind))
+						run(g.vfaOp(base+dt, h, kind))
+					}
+				}
+			}
+			g.r.Count("directed.verify-matrix." + tag)
+		}
+		run("reset")
+		run(g.createOp(5, pCreate))
+		g.simUpd(run, 8, clienttypes.NewHeight(1, 5), pUpd, nil, 0)
+		pt := func(h clienttypes.Height) int64 {
+			if h.RevisionHeight == 5 {
+				return pCreate
+			}
+			return pUpd
+		}
+		// latest = 1-8: stored (1-5, 1-8), not stored (1-7), latest+1 (1-9)
+		matrix("forward", []clienttypes.Height{clienttypes.NewHeight(1, 5), clienttypes.NewHeight(1, 8), clienttypes.NewHeight(1, 7), clienttypes.NewHeight(1, 9)}, pt)
+		// roll the latest height back by an upgrade (governance path: no height check): 1-8 stays stored above latest 1-6
+		pUpg := t0 + 30e9 + int64(delay)
+		run(g.upgradeOp(6, pUpg))
+		pt2 := func(h clienttypes.Height) int64 {
+			switch h.RevisionHeight {
+			case 5:
+				return pCreate
+			case 6:
+				return pUpg
+			}
+			return pUpd
+		}
+		matrix("rolled-back", []clienttypes.Height{clienttypes.NewHeight(1, 8), clienttypes.NewHeight(1, 6), clienttypes.NewHeight(1, 5), clienttypes.NewHeight(1, 7)}, pt2)
+		// well after every delay: the only reason left to refuse 1-8 is that it is above the latest height
+		late := pUpg + 2*int64(delay) + 100e9
+		run(g.vfyOp(late, clienttypes.NewHeight(1, 8), 1))
+		run(g.vfaOp(late, clienttypes.NewHeight(1, 8), 1))
+		run(g.vfyOp(late, clienttypes.NewHeight(1, 6), 1))
+		run(g.vfaOp(late, clienttypes.NewHeight(1, 6), 1))
+	}
 }
